@@ -379,7 +379,7 @@ def _consume_closing(trace, make_gen, app, max_events):
     trace.finished = True
 
 
-def _iterate(trace, make_gen, app, max_events, ws, mech):
+def _iterate(trace, make_gen, app, max_events, ws, mech, observe=False):
     gen = None
     try:
         if mech == 'close':
@@ -408,7 +408,7 @@ def _iterate(trace, make_gen, app, max_events, ws, mech):
             except Exception as e:
                 trace.after_stop.append('raised:' + type(e).__name__)
     gen = None
-    if trace.abandoned is not None:
+    if trace.abandoned is not None or observe:
         observe_release(trace)
 
 
@@ -475,7 +475,8 @@ def run(scen):
     for i in range(n_connects):
         if i:
             trace.events.append(_sep(w, len(trace.events)))
-        _iterate(trace, make_gen, app, max_events, ws, mech)
+        _iterate(trace, make_gen, app, max_events, ws, mech,
+                 bool(scen.get('observe_release')))
         if trace.hang or trace.escaped:
             break
     return trace
